@@ -34,6 +34,16 @@ claim("C15", "sibling-table agreement between pretty-printer and peg grammar (to
       "Printer and parser tables are mutual inverses row by row: 91 builtin names, 11 type names, constant keywords and literal syntax, term keywords, Data constructors, escape forms and their unit; grammar actions are fallible.",
       "layout, big-integer text and hex payloads of arbitrary length are not decided", "DESIGN.md §3 C15")
 
+claim("C01", "specification-table comparison of the operator lowering, contradiction rule (lazy vs commuted), sibling tables for Data casts",
+      "13-row operator table (builtin, operand order, laziness) equals the language specification; no lazily lowered operator is ever commuted; checker and generator agree on operand kinds; 4x12 to-/from-Data table inverse per type kind; Air interpreter total.",
+      "the meaning of lowering proper (hoisting, monomorphisation, recursion, decision trees, expect decoders) is a statement about values and is not decided", "DESIGN.md §3 C01")
+claim("C02", "obligation table between evaluator failure exits and constant-folder guards; typestate of the optimiser pipeline; traversal completeness",
+      "Every value-dependent failure exit of each of the 42 foldable builtins (extracted from call and costing arms) is matched by a guard of is_error_safe; the order-agnostic set is a subset of the commutative builtins; Constr/Case are only produced after every reducer that cannot handle them; substitution and occurrence walks are complete and agree.",
+      "soundness of inline/curry/split rewrites (whether a rewritten term evaluates equally) is not decided; the folder's default budget is assumed sufficient for one builtin call", "DESIGN.md §3 C02")
+claim("C11", "traversal completeness with flow-to-recursion, ordered-protocol (must-pass-through) rule on binder arms, error-path structure",
+      "10 walks x 10 constructors: every sub-term reaches the recursive call; in the 4 binder-aware conversions and the interner the scope protocol declare->lookup->start->body->end(->remove) holds in order, unconditionally, on the same unique; failed lookups are Err on every path; TryFrom impls own a Converter and propagate.",
+      "level arithmetic under shadowing is a runtime quantity: the pairing rule is necessary for correct binding, not sufficient", "DESIGN.md §3 C11")
+
 
 def main():
     props = [json.loads(l) for l in open(os.path.join(HERE, "properties.jsonl"))]
